@@ -115,7 +115,13 @@ class SyncSystem:
                     raise
         elif action == 'Register':
             self.nreg += 1
-            self.handles[self.nreg] = self.deep.register_tracepoint(args[0] + '.py', 10, {}, ['r%d' % self.nreg])
+            loc = args[0]
+            if loc.startswith('M'):
+                # a METHOD tracepoint of file L<n>.py: another location of a file that also has line registrations
+                self.handles[self.nreg] = self.deep.register_tracepoint('L' + loc[1:] + '.py', 0, {'method_name': 'handle'},
+                                                                        ['r%d' % self.nreg])
+            else:
+                self.handles[self.nreg] = self.deep.register_tracepoint(loc + '.py', 10, {}, ['r%d' % self.nreg])
         elif action == 'Unregister':
             self.handles[args[0]].unregister()
         elif action == 'Take':
